@@ -19,7 +19,7 @@ def run(tier, seed):
     wd = V.workdir('c10')
     jobs = []
     rel = bins['release']
-    nsh = 16 if th else 8
+    nsh = 32 if th else 16
     for sh in range(nsh):
         jobs.append({'profile': 'release', 'seed': seed, 'shard': sh, 'part': 'f32', 'trees': 25 if th else 5, 'cases': [], '_bin': rel})
         jobs.append({'profile': 'release', 'seed': seed, 'shard': sh, 'part': 'f64', 'trees': 25 if th else 5, 'cases': [], '_bin': rel})
